@@ -431,7 +431,8 @@ QNAME_TEXTS = [
     "{a\\b}x", "{a\\qb}x", "{a\\\\b}x", "{a\\tb}x", "{a\\'b}x", "a\\nb", "{c:\\dir}n", "{a\\.b}x", "{a\\€b}x",
     '{a"b}x', "a\nb", "x\\", "{a\\x41}c", "{a\\101}c", "{a\\N{DASH}}c", "{a\\u0041}c", "a\\\nb", "a\rb", "a\\\"b",
 ]
-STRS = ["", "a", "en", "a'b", 'a"b', "a'b\"c", "a\nb", "€", "\\", "a\\b", "\x7f", "日本", "\t", "{urn:x}a"]
+STRS = ["", "a", "en", "a'b", 'a"b', "a'b\"c", "a\nb", "€", "\\", "a\\b", "\x7f", "日本", "\t", "{urn:x}a",
+        "1", "0", "None", "True", "1.5", "()", "[]", "b'ab'"]  # the last row: str() look-alikes of other defaults
 FLOATS = [0.0, -0.0, 1.0, 1.5, 0.1, 1e22, 1e-7, -2.5e-300, float("inf"), float("-inf"), float("nan"), 3.0]
 DECS = ["0", "1", "1.50", "-0.0", "0.1", "1E+3", "3", "NaN", "Infinity", "-Infinity", "-7.25"]
 INTS = [0, 1, -1, 2, 3, 10**30, -5, 255]
@@ -528,7 +529,18 @@ EQ_VARIANTS = [
 ]
 
 
+# values whose str() equals that of the default but that are *not* equal to it
+LOOKALIKES = [
+    [J(0), J("0")], [J(1), J("1")], [J(None), J("None")], [J(True), J("True")], [J(1.5), J("1.5")], [J(()), J("()")],
+    [J([]), J("[]")], [J(b"ab"), J("b'ab'")], [J("a"), J(QName("a"))], [J(False), J("False")], [J({}), J("{}")],
+]
+
+
 def eq_variant(rng, j):
+    if rng.random() < 0.35:
+        for grp in LOOKALIKES:
+            if j in grp:
+                return rng.choice(grp)
     for grp in EQ_VARIANTS:
         if j in grp:
             return rng.choice(grp)
@@ -760,7 +772,8 @@ def bounded_cases():
     and every container shape up to size 2 over a small alphabet"""
     out = []
     defaults = [None, dv(None), dv(0), dv(1), dv(0.0), dv("a"), dv(QName("a")), dv(Decimal("1")), dv(()), df(()), df([]), df({}), df([1]), dv(b"ab")]
-    values = [J(None), J(0), J(1), J(False), J(True), J(0.0), J(-0.0), J(1.0), J("a"), J(QName("a")), J(Decimal("1.0")), J(()), J([]), J({}), J([1]), J((1,)), J(b"ab"), J(XmlHexBinary(b"ab"))]
+    values = [J(None), J(0), J(1), J(False), J(True), J(0.0), J(-0.0), J(1.0), J("a"), J(QName("a")), J(Decimal("1.0")), J(()), J([]), J({}), J([1]), J((1,)), J(b"ab"), J(XmlHexBinary(b"ab")),
+              J("0"), J("1"), J("None"), J("()"), J("[]"), J("{}"), J("b'ab'"), J("[1]")]
     for d in defaults:
         for init in (True, False) if d is not None else (True,):
             C = model(MOD_A, ["C"], [fld("f", d, init), fld("g", dv(None))])
@@ -923,77 +936,115 @@ def oracle_check(a):
     return None
 
 
-def map_val(j, fn):
-    r = fn(j)
-    if r is not None:
-        return r
-    t = j["t"]
-    if t in ("list", "tuple"):
-        return {**j, "items": [map_val(x, fn) for x in j["items"]]}
-    if t == "dict":
-        return {**j, "items": [[map_val(k, fn), map_val(v, fn)] for k, v in j["items"]]}
-    if t == "model":
-        return {**j, "attrs": [[n, map_val(v, fn)] for n, v in j["attrs"]]}
-    return j
-
-
 def has_import_clash(a):
-    """do the *emitted* import lines bind one name from two modules?"""
+    """do the *emitted* import lines bind one name from two modules, or rebind
+    the builtin `float` that the source calls?"""
     b, obj = real_case(a)
     text = PycodeSerializer().render(obj, a.get("var", "obj"))
+    head, _, body = text.partition("\n\n\n")
     seen = {}
-    for line in text.split("\n\n\n")[0].split("\n"):
+    for line in head.split("\n"):
         parts = line.split()
         if len(parts) == 4 and parts[0] == "from" and parts[2] == "import":
             seen.setdefault(parts[3], set()).add(parts[1])
+    if "float" in seen and 'float("' in body:
+        return True
     return any(len(v) > 1 for v in seen.values())
 
 
-def repairs(a):
-    """(finding id, region predicate holds, input with the trigger removed)"""
-    vals = list(walk_vals(a["val"]))
-    out = []
-    if any(j["t"] == "enum" and len(j["path"]) > 1 for j in vals):
-        out.append(("C18-nested-enum", lambda j: {"t": "none"} if j["t"] == "enum" and len(j["path"]) > 1 else None))
-    if any(j["t"] == "tuple" and j["items"] for j in vals):
-        out.append(("C18-tuple-as-list", lambda j: {"t": "list", "items": [map_val(x, lambda y: None) for x in j["items"]]} if j["t"] == "tuple" and j["items"] else None))
-    if any(j["t"] == "qname" and any(c in j["text"] for c in BAD_QNAME_CHARS) for j in vals):
-        out.append(("C18-qname-unescaped", lambda j: {"t": "qname", "text": "".join("_" if c in BAD_QNAME_CHARS else c for c in j["text"])} if j["t"] == "qname" else None))
-    return out
+def rename_clashes(a):
+    """give every module-level class name that is used by two modules (or is
+    `float`) a unique name, consistently in the world and in the values"""
+    taken = {"float", "QName", "Decimal"} | {type(o).__name__ for o in OPAQUES + BYTES}
+    ren = {}
+    for e in a["world"]:
+        key = (e["module"], e["path"][0])
+        if key in ren or e.get("real"):
+            continue
+        n = e["path"][0]
+        if n in taken and not any(k[1] == n and k[0] == e["module"] for k in ren):
+            i = 2
+            while f"{n}_{i}" in taken:
+                i += 1
+            ren[key] = f"{n}_{i}"
+        else:
+            ren[key] = n
+        taken.add(ren[key])
+
+    def walk(x):
+        if isinstance(x, list):
+            return [walk(y) for y in x]
+        if isinstance(x, dict):
+            y = {k: walk(v) for k, v in x.items()}
+            if "module" in y and isinstance(y.get("path"), list) and y["path"]:
+                new = ren.get((y["module"], y["path"][0]))
+                if new is not None:
+                    y["path"] = [new] + y["path"][1:]
+            return y
+        return x
+
+    return walk(a)
 
 
-def _repair_tuple(j):
-    if j["t"] == "tuple" and j["items"]:
-        return {"t": "list", "items": [map_val(x, _repair_tuple) for x in j["items"]]}
-    return None
+def repair_value(a):
+    """(ids of the value-level findings whose region the input lies in,
+    the input with exactly those triggers removed)"""
+    ids = []
+    fresh = [0]
+
+    def triggers(j):
+        return any(
+            (x["t"] == "enum" and len(x["path"]) > 1) or (x["t"] == "tuple" and x["items"])
+            or (x["t"] == "qname" and any(c in x["text"] for c in BAD_QNAME_CHARS))
+            for x in walk_vals(j)
+        )
+
+    def fix(j):
+        t = j["t"]
+        if t == "enum" and len(j["path"]) > 1:
+            ids.append("C18-nested-enum")
+            return {"t": "none"}
+        if t == "qname" and any(c in j["text"] for c in BAD_QNAME_CHARS):
+            ids.append("C18-qname-unescaped")
+            return {"t": "qname", "text": "".join("_" if c in BAD_QNAME_CHARS else c for c in j["text"])}
+        if t == "tuple" and j["items"]:
+            ids.append("C18-tuple-as-list")
+            return {"t": "list", "items": [fix(x) for x in j["items"]]}
+        if t in ("list", "tuple"):
+            return {**j, "items": [fix(x) for x in j["items"]]}
+        if t == "dict":
+            items = []
+            for k, v in j["items"]:
+                if triggers(k):
+                    fix(k)  # records the finding ids
+                    fresh[0] += 1
+                    k = J(f"__repaired_key_{fresh[0]}")
+                items.append([k, fix(v)])
+            return {**j, "items": items}
+        if t == "model":
+            return {**j, "attrs": [[n, fix(v)] for n, v in j["attrs"]]}
+        return j
+
+    v = fix(a["val"])
+    return ids, {**a, "val": v}
 
 
 def covered(a, msg):
-    """A failing input belongs to a known finding when it lies in the finding's
-    region *and* removing exactly the triggers of the known findings makes the
-    property hold (so nothing else is wrong with it)."""
-    reps = repairs(a)
-    # tuple repair must recurse through nested tuples
-    reps = [(fid, _repair_tuple if fid == "C18-tuple-as-list" else fn) for fid, fn in reps]
-    clash = has_import_clash(a)
-    if not reps and not clash:
-        return None
-    if clash:
-        # no local repair exists for a name bound twice; the predicate is on the emitted imports
-        if "NameError" in msg and not reps:
-            return None
-        return "C18-import-name-clash" if not reps else reps[0][0]
-    v = a["val"]
-    for _, fn in reps:
-        v = map_val(v, fn)
-    fixed = {**a, "val": v}
-    # dict keys may have collapsed after the repair; rebuild defensively
+    """A failing input belongs to a known finding when it lies in that
+    finding's region (a predicate on the input / on the emitted imports) *and*
+    the property holds once exactly the triggers of the known findings are
+    removed - so nothing else is wrong with it."""
     try:
-        again = oracle_check(fixed)
+        ids, fixed = repair_value(a)
+        if has_import_clash(a):
+            ids.append("C18-import-name-clash")
+            fixed = rename_clashes(fixed)
+        if not ids:
+            return None
+        if oracle_check(fixed) is None:
+            return ids[0]
     except Exception:  # noqa: BLE001
         return None
-    if again is None:
-        return reps[0][0]
     return None
 
 
